@@ -94,6 +94,21 @@ def gen_cases(chk):
             body += B.EXIT
             table = [(pc, 8 * (1 + rng.below(6))) for pc in entries[1:]] + [(0, 8 * (1 + rng.below(6)))]
             cases.append(Case(body, calc=(8 * (1 + rng.below(6)), table), fam='chain-calc:%d' % depth, budget=400))
+    # 10. a function that calls twice: the second callee's frame lies below the CALLER's frame size again, whatever function was
+    #     entered last (main: call f1; call f2 -> f2 returns caller_r10 - r10; f1 / f2 have other frame sizes than main)
+    for (a, b1, b2) in ((64, 16, 32), (16, 64, 128), (128, 8, 8), (24, 200, 40)):
+        f2 = B.movr(0, 6) + B.alu('sub', 0, src=10) + B.EXIT
+        f1 = B.mov(0, 0) + B.EXIT
+        p = B.movr(6, 10) + B.callx(2) + B.callx(3) + B.EXIT + f1 + f2          # f1 at pc 4, f2 at pc 6
+        cases.append(Case(p, calc=(a, [(4, b1), (6, b2)]), fam='second-call', budget=100))
+        # the same callee twice: both calls see the same frame pointer
+        g = B.movr(0, 10) + B.EXIT
+        p = B.callx(4) + B.movr(7, 0) + B.callx(2) + B.alu('sub', 0, src=7) + B.EXIT + g      # g at pc 5
+        cases.append(Case(p, calc=(a, [(5, b1)]), fam='second-call', budget=100))
+        # nested: f1 (pc 3) calls f2 twice
+        f1n = B.movr(6, 10) + B.callx(2) + B.callx(1) + B.EXIT                  # f1 at pc 2, f2 at pc 6
+        p = B.callx(1) + B.EXIT + f1n + B.movr(0, 6) + B.alu('sub', 0, src=10) + B.EXIT
+        cases.append(Case(p, calc=(a, [(2, b1), (6, b2)]), fam='second-call', budget=100))
     # 7. touching the stack below its 512 bytes is an error, not a crash
     p = B.callx(1) + B.EXIT + B.callx(1) + B.EXIT + B.load_const(3, 1) + B.stx('dw', 10, 3, -8) + B.mov(0, 0) + B.EXIT
     cases.append(Case(p, fam='stack-exhausted', budget=100))
